@@ -17,8 +17,6 @@ from gen import programs
 def pick(cases, thorough, seed):
     """quick: a stratified seeded sample - every (parameter list, deps kind) pair occurs, with three seeded choices of
     the remaining dimensions (mode / number of functions / async / option set)"""
-    if thorough:
-        return cases
     rng = random.Random(seed)
     groups = {}
     for c in cases:
@@ -27,7 +25,9 @@ def pick(cases, thorough, seed):
     for k in sorted(groups):
         g = groups[k]
         rng.shuffle(g)
-        out += g[:3]
+        # (thorough: the parameter lists of length 3 add 4 900 groups: one seeded program of each - the whole family is model-checked
+        #  by TLC; replaying all of it logs 1.7 million events, more than one TLC validation run gets through in an hour)
+        out += g[:(1 if len(k[0]) > 2 else 3)]
     return out
 
 
@@ -127,7 +127,7 @@ def main():
                        f"{3 if thorough else 2} parameters of 6 kinds x sync/async x 5 option sets, both cargo feature settings; "
                        "quick replays all programs with <= 1 parameter plus a seeded sample; per method a direct-call, a trait-call "
                        "and (async) a dropped-future scenario with seeded injective values; non-trivial = compiled and has parameters")
-    chk.cov["exhaustive"] = bool(thorough)
+    chk.cov["exhaustive"] = False      # (TLC explores the whole family; the replay is a stratified seeded sample in both tiers)
     byid = {c["case"]: c for c in sel}
     chk.cov["samples"] = [{"program": c["prog"], "scenarios": c["nscen"]} for c in sel[:: max(1, len(sel) // 5)][:5]]
     if dropped:
